@@ -391,7 +391,7 @@ class Ctx:
             self.pos += 1
             self.add(conds[idx])
             return idx
-        feas = [i for i, c in enumerate(conds) if self._check(c)]
+        feas = [i for i, c in enumerate(conds) if self._feasible(c)]
         if not feas:
             raise PathAbort("infeasible")
         self.prefix.append([feas[0], feas])
@@ -400,6 +400,18 @@ class Ctx:
             self.stats.bump("forks", len(feas) - 1)
         self.add(conds[feas[0]])
         return feas[0]
+
+    def _feasible(self, c):
+        """branch feasibility: refuted cheaply by the mod/div-free part of the path condition when possible"""
+        if is_light(c):
+            t = time.time()
+            r = self.light.check(c)
+            self.stats.bump("queries")
+            self.stats.bump("q_light")
+            self.stats.bump("solver_s", time.time() - t)
+            if r == z3.unsat:
+                return False
+        return self._check(c)
 
     def choose(self, cond):
         cond = z3.simplify(cond)
